@@ -163,6 +163,25 @@ def tables(ctx):
     return p
 
 
+def hetero(ctx):
+    """TLC-enumerated column profiles (cell kind per row) for aligned tables with heterogeneous columns."""
+    r = ctx.tlc("JsonWriterHeteroGen", "JsonWriterHeteroGen_quick.cfg" if ctx.quick else "JsonWriterHeteroGen_full.cfg", workers=1, timeout=600)
+    if r.error or r.violated:
+        raise Infra("column profile generation failed:\n" + r.out[-2000:])
+    seen, out = set(), []
+    for s in r.printed("HP"):
+        k = json.dumps(s, sort_keys=True)
+        if k not in seen:
+            seen.add(k)
+            out.append(s)
+    if len(out) < 100:
+        raise Infra("column profile generation produced only %d profiles" % len(out))
+    p = os.path.join(ctx.scratch, "hetero.ndjson")
+    verif.write_ndjson(p, out)
+    ctx.cov["model_column_profiles"] = len(out)
+    return p
+
+
 def main(ctx):
     # (a) design check of the writer machine + non-vacuity of Safe
     ctx.design("JsonWriter", "JsonWriter_quick.cfg" if ctx.quick else "JsonWriter_full.cfg", workers=4 if ctx.quick else 8,
@@ -171,10 +190,11 @@ def main(ctx):
     # (b) cases
     sp = shapes(ctx)
     tp = tables(ctx)
+    hp = hetero(ctx)
     wb = ctx.build("writers")
     cases = os.path.join(ctx.scratch, "cases.ndjson")
     with open(cases, "wb") as f:
-        ctx.run([wb, "gen", "-shapes", sp, "-tables", tp, "-tier", ctx.tier, "-reps", "4" if ctx.quick else "8"], stdout=f)
+        ctx.run([wb, "gen", "-shapes", sp, "-tables", tp, "-hetero", hp, "-tier", ctx.tier, "-reps", "4" if ctx.quick else "8"], stdout=f)
     # (c) run and judge
     recs = judge(ctx, cases)
     for r in recs:
